@@ -43,6 +43,12 @@ theorem SeqOp.apply_map {α β} (f : α → β) (g : Regs α) (op : SeqOp α) :
     · rfl
 
   | obs r => rfl
+  | moveS r q =>
+    simp only [SeqOp.apply, SeqOp.map]
+    split
+    · rfl
+    · simp [Regs.map_put, Regs.map]
+  | obsNone r => rfl
 
 theorem SeqOp.run_map {α β} (f : α → β) (ops : List (SeqOp α)) : ∀ g : Regs α,
     (SeqOp.run g ops).map f = SeqOp.run (g.map f) (ops.map (SeqOp.map f)) := by
